@@ -84,6 +84,7 @@ type world struct {
 
 	lockWrap func(locker.Service) locker.Service
 	noCache  bool
+	viaGrpc  bool
 	trace    []string
 	cops     []cop
 	parks    []*park
@@ -159,6 +160,8 @@ func (w *world) config(f []string) bool {
 		w.raws = append(w.raws, [2][]byte{unhex(f[1]), unhex(f[2])})
 	case "nocache":
 		w.noCache = true
+	case "viagrpc":
+		w.viaGrpc = true
 	case "locktrace":
 		w.enableTrace()
 	case "legacyregex":
